@@ -57,12 +57,14 @@ SHAPES = {
     # the config folder has another name (tally up <dir> / TALLY_CONFIG accept any folder): only `up <dir> --migrate` applies to it
     # a budget that has been migrated back and forth many times: .bak, .bak.1 ... .bak.10 all exist (each with its own content)
     'csv-old-manybaks':   {'layout': 'old', 'rules': 'csv', 'manybaks': 11, 'only': ('migrate', 'init')},
+    # the settings name the legacy CSV explicitly (merchants_file: config/merchant_categories.csv)
+    'csv-old-explicit-csv': {'layout': 'old', 'rules': 'csv', 'explicit_csv': True, 'only': ('migrate', 'init')},
     'csv-old-oddname':    {'layout': 'old', 'rules': 'csv', 'cfg_name': 'cfg-2025', 'only': ('migrate',)},
 }
 COMMANDS = ['migrate', 'init', 'update']
 QUICK = [('csv-old', 'migrate'), ('csv-old-bak', 'init'), ('csv-old-output', 'update'), ('csv-new', 'migrate'), ('csv-old-commented-key', 'migrate'),
          ('rules-old-absdata', 'update'), ('csv-old', 'migrate', 'other-filesystem'), ('csv-old-empty-key', 'migrate'), ('csv-old-altsettings', 'migrate'),
-         ('csv-old-commented-key', 'init'), ('rules-old-symlink-data', 'update'), ('csv-old-oddname', 'migrate'), ('csv-old-manybaks', 'migrate')]
+         ('csv-old-commented-key', 'init'), ('rules-old-symlink-data', 'update'), ('csv-old-oddname', 'migrate'), ('csv-old-manybaks', 'migrate'), ('csv-old-explicit-csv', 'migrate'), ('csv-old-explicit-csv', 'init')]
 OTHER_FS = '/dev/shm'        # a file system other than the one holding the system temp directory (if this machine has one)
 
 
@@ -93,6 +95,8 @@ def build(root, shape):
     else:
         with open(os.path.join(cfg, 'merchant_categories.csv'), 'w') as f:
             f.write(CSV)
+    if sp.get('explicit_csv'):
+        s += 'merchants_file: config/merchant_categories.csv\n'
     if sp.get('empty_key'):
         s += rnd_free_choice(shape, ['merchants_file:\n', 'merchants_file: \n', 'merchants_file: ~\n', 'merchants_file: null\n'])
     if sp.get('commented_key'):
